@@ -660,6 +660,7 @@ type prop struct {
 	cancels map[string]func()
 	dir     string
 	seq     int
+	seqSolo bool
 }
 
 func New() core.Prop {
@@ -1021,6 +1022,8 @@ func (p *prop) Run(line string) core.Outcome {
 		return p.runCF(f)
 	} else if len(f) > 0 && f[0] == "pp" {
 		return p.runPP(f)
+	} else if len(f) > 0 && f[0] == "seq" {
+		return p.runSeq(f)
 	}
 	k, ok := parseLine(line)
 	if !ok {
